@@ -275,7 +275,16 @@ func runWire(t *testing.T, scAny any, trace bool) *Outcome {
 				era := &polEra{spec: a.Pol, start: simrt.Stamp(), ret: -1}
 				cw.addEra(era)
 				simrt.Event("admin update %d begins %+v", ai, a.Pol)
-				if err := w.NFS.UpdatePolicyOptions(a.Pol.policy()); err != nil {
+				var err error
+				if a.ViaExport {
+					eo := w.NFS.GetExportOptions()
+					p := a.Pol.policy()
+					eo.ReadOnly, eo.Secure, eo.AllowedIPs, eo.EnableRateLimiting, eo.RateLimitConfig = p.ReadOnly, p.Secure, p.AllowedIPs, p.EnableRateLimiting, p.RateLimitConfig
+					err = w.NFS.UpdateExportOptions(eo)
+				} else {
+					err = w.NFS.UpdatePolicyOptions(a.Pol.policy())
+				}
+				if err != nil {
 					cw.setRet(era, -2, nil)
 					continue
 				}
